@@ -26,7 +26,7 @@ DIMS = List(Tup(Nat, Nat))
 
 DENSE = {
     "ereal": CheckFn("c09-dense-ereal", "Model.Solve", "dense_check_ereal", Tup(Nat, Nat, M(EW), M(EW), M(OBS), M(EW))),
-    "trop": CheckFn("c09-dense-trop", "Model.Solve", "dense_check_trop", Tup(Nat, Nat, M(TW), M(TW), M(TW), M(TW))),
+    "trop": CheckFn("c09-dense-trop", "Model.Solve", "dense_check_trop", Tup(Bool, Nat, Nat, M(TW), M(TW), M(TW), M(TW))),
     "bool": CheckFn("c09-dense-bool", "Model.Solve", "dense_check_bool", Tup(Nat, Nat, M(Bool), M(Bool), M(Bool), M(Bool))),
 }
 LU = CheckFn("c09-real-lu", "Model.Solve", "real_lu_check", Tup(Nat, M(EW), List(EW), Option(List(Tup(Nat, QQ))), List(OBS)))
@@ -34,7 +34,7 @@ MSOLVE = {
     "ereal": CheckFn("c09-msolve-ereal", "Model.MultiSolve", "multi_solve_check_ereal",
                      Tup(DIMS, List(Nat), Bool, B2(EW), B1(EW), B1(OBS), List(EW))),
     "trop": CheckFn("c09-msolve-trop", "Model.MultiSolve", "multi_solve_check_trop",
-                    Tup(DIMS, List(Nat), Bool, B2(TW), B1(TW), B1(TW), List(TW))),
+                    Tup(Bool, DIMS, List(Nat), Bool, B2(TW), B1(TW), B1(TW), List(TW))),
     "bool": CheckFn("c09-msolve-bool", "Model.MultiSolve", "multi_solve_check_bool",
                     Tup(DIMS, List(Nat), Bool, B2(Bool), B1(Bool), B1(Bool), List(Bool))),
 }
@@ -112,10 +112,19 @@ def run_dense_case(name, n, m, A, Bm):
     if tuple(x.shape) != tuple(b.shape): raise U.BadValue("output shape %r for rhs shape %r" % (tuple(x.shape), tuple(b.shape)))
     return dict(X=X, lu=log, modified=modified)
 
+_STAR0 = []
+def viterbi_star0_is_inf():
+    """which star does the code have?  (finding F2: star(0.) = inf; repaired: 0.)"""
+    if not _STAR0:
+        import torch
+        _STAR0.append(bool(U.semiring("viterbi").star(torch.tensor(0., dtype=torch.float64)).item() == math.inf))
+    return _STAR0[0]
+
 def dense_value(name, n, m, A, Bm, X):
     Uc = certificate(name, A, Bm)
     w = lambda Mx: U.wire_mat(name, Mx)
-    return (n, m, w(A), w(Bm), X, w(Uc))
+    v = (n, m, w(A), w(Bm), X, w(Uc))
+    return ((viterbi_star0_is_inf(),) + v) if name == "viterbi" else v
 
 def dense_cases(rng, tier):
     per = 260 if tier == "quick" else 3500
@@ -379,10 +388,11 @@ def multi_solve_value(c, r):
     u = U.xsolve(R, A, bb)
     w = lambda v: U.wire_val(name, v)
     ord_full = order if order else []
-    return (dims, ord_full, c["transpose"],
-            [((x, y), U.wire_mat(name, blk)) for (x, y), blk in c["a"]],
-            [(x, [w(v) for v in vec]) for x, vec in c["b"]],
-            r["out"], [w(v) for v in u])
+    v = (dims, ord_full, c["transpose"],
+         [((x, y), U.wire_mat(name, blk)) for (x, y), blk in c["a"]],
+         [(x, [w(v) for v in vec]) for x, vec in c["b"]],
+         r["out"], [w(v) for v in u])
+    return ((viterbi_star0_is_inf(),) + v) if name == "viterbi" else v
 
 def mv_cases(rng, tier):
     cases = []
@@ -464,14 +474,52 @@ def violation_for(code, c, observed, call, extra=None):
                      corr="C09_elimination_least / C09_oracle_sound / corr:%s" % c["kind"],
                      failing_input_found=found, call=call, finding_key=fk)
 
+def run_coq_group(group, tag, timeout=900):
+    """one coqc run evaluating, with vm_compute, the picked cases of several check functions
+    (the libraries are loaded once); returns one list of verdict codes per plan"""
+    import subprocess, shutil, re
+    d = os.path.join(BUILD, "cases", tag)
+    shutil.rmtree(d, ignore_errors=True); os.makedirs(d)
+    path = os.path.join(d, "Cases_%s.v" % tag.replace("-", "_"))
+    mods = []
+    for cf, values, codes, pick, jt in group:
+        for m in [cf.module] + cf.imports:
+            if m not in mods: mods.append(m)
+    with open(path, "w") as f:
+        f.write("From Coq Require Import List ZArith QArith.\nImport ListNotations.\n")
+        for m in mods: f.write("Require Import Fggs.%s.\n" % m)
+        for k, (cf, values, codes, pick, jt) in enumerate(group):
+            f.write("Definition cases_%d : list %s := [\n" % (k, cf.ty.coqty()))
+            f.write(";\n".join(cf.ty.coq(values[i]) for i in pick))
+            f.write("\n].\nDefinition res_%d := List.map %s cases_%d.\nEval vm_compute in res_%d.\n" % (k, cf.coq_name, k, k))
+    p = subprocess.run(["timeout", str(timeout), "coqc", "-q", "-R", os.path.join(COQDIR, "theories"), "Fggs", path],
+                       stdout=subprocess.PIPE, stderr=subprocess.STDOUT, text=True, cwd=d)
+    if p.returncode != 0:
+        raise BuildError("coqc failed on %s:\n%s" % (path, p.stdout[-3000:]))
+    blocks = re.findall(r"=\s*(\[.*?\]|nil)\s*:\s*list nat", p.stdout, re.S)
+    if len(blocks) != len(group):
+        raise BuildError("could not parse coqc output of %s (%d blocks for %d jobs):\n%s" % (path, len(blocks), len(group), p.stdout[-2000:]))
+    out = []
+    for blk, (cf, values, codes, pick, jt) in zip(blocks, group):
+        cs = [int(x) for x in re.findall(r"\d+", blk)]
+        if len(cs) != len(pick):
+            raise BuildError("coqc printed %d codes for %d cases of %s" % (len(cs), len(pick), cf.kind))
+        out.append(cs)
+    return out
+
+JOB_SECONDS = {}     # tag -> [cases, extracted-driver seconds, kernel seconds]
+
 def run_models_parallel(jobs, seed):
     """jobs: list of (cf, values, coq_sample, tag).  Same contract as core.run_model for each job
     (bulk through the extracted driver; a sample and every non-zero verdict re-evaluated in the
     kernel with vm_compute, both must agree), but the coqc runs of all jobs are concurrent."""
     from concurrent.futures import ThreadPoolExecutor
+    import time as _time
     plans = []
     for cf, values, coq_sample, tag in jobs:
+        t0 = _time.time()
         codes = run_ocaml(cf, values)
+        JOB_SECONDS[tag] = [len(values), round(_time.time() - t0, 1), 0.0]
         rng = random.Random(seed * 7919 + 13)
         idx = list(range(len(values)))
         bad = [i for i in idx if codes[i] != 0][:40]
@@ -479,12 +527,20 @@ def run_models_parallel(jobs, seed):
         rng.shuffle(rest)
         pick = sorted(set(bad + rest[:coq_sample]))
         plans.append((cf, values, codes, pick, tag))
-    def kernel(plan):
-        cf, values, codes, pick, tag = plan
-        if not pick: return []
-        return run_coq(cf, [values[i] for i in pick], jobs=2, tag=tag)
-    with ThreadPoolExecutor(max_workers=6) as ex:
-        results = list(ex.map(kernel, plans))
+    def kernel_group(gi_group):
+        gi, group = gi_group
+        if not any(pl[3] for pl in group): return [[] for _ in group]
+        t0 = _time.time()
+        r = run_coq_group(group, "c09-group-%d" % gi)
+        for pl in group: JOB_SECONDS[pl[4]][2] = round(_time.time() - t0, 1)
+        return r
+    ngroups = 3
+    groups = [(gi, plans[gi::ngroups]) for gi in range(ngroups)]
+    with ThreadPoolExecutor(max_workers=ngroups) as ex:
+        gres = list(ex.map(kernel_group, groups))
+    results = [None] * len(plans)
+    for (gi, group), rs in zip(groups, gres):
+        for k, r in enumerate(rs): results[gi + k * ngroups] = r
     out = []
     for (cf, values, codes, pick, tag), ccodes in zip(plans, results):
         for i, c in zip(pick, ccodes):
@@ -627,7 +683,7 @@ def run(tier, seed):
     cov = dict(evaluations=evals, distinct_nontrivial=len(seen_nontrivial),
                rule="dense/patterned: n <= 4, entries from the exact grids (Real/Log: 0, 1/4, 1/2, 1, 2, inf; Viterbi: -inf, -3..2, +inf; Bool), classes forcing spectral radius < 1 (row sums < 1 / negative weights), = 1 (row-stochastic, zero-weight cycles), > 1, infinite entries, zero rows, triangular; vector and matrix right-hand sides. multi: all 16 x 4 presence patterns of a 2-block system x transpose, sampled 3- and 4-block systems, block shapes (), (2,), (2,2), (3,), three key types, order recorded from the implementation. non-trivial = dense: n >= 2 with a non-zero off-diagonal entry; multi: >= 2 present blocks; distinct by full case content",
                samples=samples[:6], histogram=hist, kernel_reevaluated=kernel, lu_path_observed=lu_taken,
-               order_model_set_iteration_assumption_held=order_sets_ok, phase_seconds=phase,
+               order_model_set_iteration_assumption_held=order_sets_ok, viterbi_star_at_0_is_inf=viterbi_star0_is_inf(), phase_seconds=phase, job_seconds=JOB_SECONDS,
                open_items=OPEN_ITEMS)
     return cov, violations
 
